@@ -26,6 +26,7 @@ differ from M without violating P are model_drift.
 """
 import hashlib
 import json
+import pickle
 import multiprocessing as mp
 import os
 import random
@@ -33,11 +34,13 @@ import re
 import shutil
 import subprocess
 import sys
-import textwrap
+import time
+import concurrent.futures
 
 from vf import common, tlc, evidence
 
 PROP = "C20"
+NW = max(1, int(os.environ.get("VF_WORKERS", "16") or 16))   # worker processes / TLC workers (16 unless capped from outside)
 KINDS = {"a": "arg", "t": "tool", "s": "sandbox"}
 
 
@@ -394,7 +397,15 @@ def duck_task(arg):
             for k in range(5):
                 for sd in ((False, True) if k == case.ksel else (False,)):
                     kinds = case.with_ksel(k)
-                    v, part, bo = run_duck(case, kinds, sd, jmod, errors)
+                    try:
+                        v, part, bo = run_duck(case, kinds, sd, jmod, errors)
+                    except (KeyError, IndexError, AssertionError, TypeError, ValueError, RecursionError) as e:
+                        import traceback
+                        tb = [t for t in traceback.extract_tb(e.__traceback__) if "/pym/bob/" in t.filename]
+                        if not tb:
+                            raise
+                        v, part, bo = [("job-generation-crash:%s" % type(e).__name__ + ("" if case.m_names_unique else ":duplicate-name"),
+                                        {"error": "%s: %s" % (type(e).__name__, e), "at": "%s:%d %s" % (os.path.basename(tb[-1].filename), tb[-1].lineno, tb[-1].name)})], None, None
                     res["evals"] += 1
                     for sig, det in v:
                         sig = classify_dup(case, sig, det)
@@ -442,8 +453,10 @@ def sel_expr(case, pname):
     return "${SEL:-%d}" % srcs[0] if srcs else "${SEL:-0}"
 
 
-def write_project(case, root):
-    """Real recipes for the case. Recipe = first name component, the rest is the multiPackage key."""
+def write_project(case, root, scms=True):
+    """Real recipes for the case. Recipe = first name component, the rest is the multiPackage key.
+    scms: give the checkout steps SCMs as well (never checked out here; they make the Jenkins and the local
+    pre-run commands differ)."""
     os.makedirs(os.path.join(root, "recipes"))
     with open(os.path.join(root, "config.yaml"), "w") as f:
         f.write("bobMinimumVersion: \"0.25\"\n")
@@ -487,9 +500,14 @@ def write_project(case, root):
                 # a checkout step only where it does not change the order of getAllDepSteps()
                 out.append("        checkoutDeterministic: True")
                 out.append("        checkoutScript: |\n            echo src-%s > src.txt" % pname)
-            out.append("        buildScript: |\n            mkdir -p bin lib\n            echo \"build %s $SEL $#\" > bin/b.txt\n"
+                if scms:
+                    hx = hashlib.sha1(pname.encode()).hexdigest()
+                    out.append("        checkoutSCM:")
+                    out.append("            - {scm: git, url: \"file:///nonexistent/c20/%s.git\", dir: gitsrc, commit: \"%s\"}" % (pname, hx))
+                    out.append("            - {scm: url, url: \"file:///nonexistent/c20/%s.bin\", dir: dl, digestSHA1: \"%s\", extract: False}" % (pname, hx))
+            out.append("        buildScript: |\n            mkdir -p bin lib\n            echo \"build %s ${SEL:-} $#\" > bin/b.txt\n"
                        "            for i in \"${@:2}\" ; do cat $i/result.txt >> bin/b.txt ; done" % pname)
-            out.append("        packageScript: |\n            mkdir -p bin lib\n            cp $1/bin/b.txt result.txt\n            echo \"pkg %s $SEL\" >> result.txt" % pname)
+            out.append("        packageScript: |\n            mkdir -p bin lib\n            cp $1/bin/b.txt result.txt\n            echo \"pkg %s ${SEL:-}\" >> result.txt" % pname)
             if len(variants) % 2 == 0:
                 out.append("        fingerprintIf: True\n        fingerprintScript: |\n            echo fp-%s" % pname)
         with open(os.path.join(root, "recipes", rname + ".yaml"), "w") as f:
@@ -614,9 +632,15 @@ def _real(case, proj, seed, res):
         except errors.ParseError as e:
             res["status"] = "bob rejects the recipes: %s" % str(e).splitlines()[0]
             return
+        except Exception as e:
+            import traceback
+            tb = traceback.extract_tb(e.__traceback__)[-1]
+            res["viol"].append(("job-generation-crash:%s" % type(e).__name__ + ("" if case.m_names_unique else ":duplicate-name"),
+                                {"error": "%s: %s" % (type(e).__name__, e), "at": "%s:%d %s" % (os.path.basename(tb.filename), tb.lineno, tb.name),
+                                 "case": case.brief(), "root_paths": cfg.roots, "level": "real recipes"}))
+            return
         # ---- generator validity: the live package graph is the abstract one
         alljobsteps = [s for j in jobs.values() for s in j.getPackageSteps()]
-        rootsteps = [s for s in alljobsteps if "/".join(s.getPackage().getStack()) in cfg.roots] or alljobsteps
         lkids, lsteps = live_graph(case, alljobsteps)
         want = {n: list(zip(case.kids[n], case.kinds[n])) for n in reach(case.kids, case.roots)}
         got = {n: lkids[n] for n in lkids}
@@ -649,7 +673,17 @@ def _real(case, proj, seed, res):
                     {a: sorted(b) for a, b in part.items()}, {a: sorted(b) for a, b in case.m_jobs.items()}, case.brief()))
         # ---- (B-iii) faithfulness of the embedded job specification
         if bo[0] == "ok":
-            faithful(case, proj, cfg, jobs, bo[1], rng, res)
+            try:
+                faithful(case, proj, cfg, jobs, bo[1], rng, res)
+            except Exception as e:
+                import traceback
+                tb = traceback.extract_tb(e.__traceback__)
+                inbob = [t for t in tb if "/pym/bob/" in t.filename]
+                if not inbob:
+                    raise
+                res["viol"].append(("spec-unusable:%s" % type(e).__name__,
+                                    {"error": "%s: %s" % (type(e).__name__, e), "at": "%s:%d %s" % (os.path.basename(inbob[-1].filename), inbob[-1].lineno, inbob[-1].name),
+                                     "case": case.brief(), "level": "job specification"}))
         res["sample"] = {"case": case.brief(), "root_paths": cfg.roots,
                          "jobs": {n: sorted(p) for n, p in job_pkgs.items()}, "upstream": {n: sorted(u) for n, u in upstream.items()},
                          "build_order": bo[1] if bo[0] == "ok" else bo[0], "steps_compared": res["steps_compared"]}
@@ -745,15 +779,20 @@ def faithful(case, proj, cfg, jobs, order, rng, res):
             diff(name, "recipe.scriptLanguage", lp.getRecipe().scriptLanguage.index.value, ip.getRecipe().scriptLanguage.index.value, lps)
             for ls, is_ in ((lp.getCheckoutStep(), ip.getCheckoutStep()), (lp.getBuildStep(), ip.getBuildStep()), (lps, ips)):
                 res["steps_compared"] += 1
+                if not ls.isValid():
+                    # placeholder of a missing checkout/build step: never executed; all placeholders of a job share
+                    # one variant-id and therefore one entry of the specification (package and pseudo path of another one)
+                    diff(name, "isValid", False, is_.isValid(), ls)
+                    continue
                 for g in STEP_GETTERS:
                     diff(name, g, getattr(ls, g)(), getattr(is_, g)(), ls)
                 diff(name, "partial", False, is_.partial, ls)
-                if not ls.isValid():
-                    continue
                 for g in FULL_GETTERS:
                     diff(name, g, getattr(ls, g)(), getattr(is_, g)(), ls)
                 # tools / sandbox / arguments with the identity, location and kind of what they refer to
                 def ref(st):
+                    if not st.isValid():
+                        return ("invalid",)
                     return (st.getVariantId(), st.getWorkspacePath(), st.isValid(), st.getPackage().getName(),
                             st.isRelocatable(), st.isShared(), st.getSandbox() is not None)
                 diff(name, "getTools", {n: (t.getPath(), t.getLibs(), ref(t.getStep())) for n, t in ls.getTools().items()},
@@ -766,6 +805,10 @@ def faithful(case, proj, cfg, jobs, order, rng, res):
                 if ls.isCheckoutStep():
                     diff(name, "hasLiveBuildId", ls.hasLiveBuildId(), is_.hasLiveBuildId(), ls)
                     diff(name, "getScmDirectories", ls.getScmDirectories(), is_.getScmDirectories(), ls)
+                    # "__source" is the human-readable origin used in error messages only (it grows on re-parsing)
+                    def props(x):
+                        return {k: v for k, v in x.getProperties(True).items() if k != "__source"}
+                    diff(name, "getScmList", [props(x) for x in ls.getScmList()], [props(x) for x in is_.getScmList()], ls)
                 # what is executed: the executable step specification, build node vs local build
                 local = ExecutableStep.fromStep(ls, LazyIR)
                 for g in EXEC_GETTERS:
@@ -775,7 +818,7 @@ def faithful(case, proj, cfg, jobs, order, rng, res):
                 for k in ("isJenkins", "preRunCmds"):
                     sl.pop(k), sj.pop(k)
                 for k in sorted(set(sl) | set(sj)):
-                    diff(name, "StepSpec." + k, sl.get(k), sj.get(k), ls)
+                    diff(name, "StepSpec." + k, unplace(sl.get(k)), unplace(sj.get(k)), ls)
                 # Variant-Id recomputed from the deserialized data; must be the recipe-level one (bob.input digest)
                 diff(name, "variant-id:recomputed", ls._coreStep.getDigest(lambda cs: cs.variantId), run(is_.getDigestCoro(calc_vid)), ls)
                 diff(name, "variant-id:stored", ls.getVariantId(), run(is_.getDigestCoro(calc_vid)), ls)
@@ -798,15 +841,33 @@ def faithful(case, proj, cfg, jobs, order, rng, res):
                             live_deps[jmod_vid(dps)] = dps
         diff(name, "getDependencies", sorted((JenkinsArchive.buildIdName(s), JenkinsArchive.tgzName(s), s.getWorkspacePath()) for s in live_deps.values()),
              sorted((JenkinsArchive.buildIdName(s), JenkinsArchive.tgzName(s), s.getWorkspacePath()) for s in deps))
-        live_ws = set()
+        # workspaces the node may keep: the built steps, their dependencies and (recorded with every
+        # step) the sandboxes of those
+        live_st = []
         for lps in live_roots:
             for st in (lps, lps.getPackage().getBuildStep(), lps.getPackage().getCheckoutStep()):
-                live_ws.add(st.getWorkspacePath())
+                live_st.append(st)
                 if st.isValid():
-                    live_ws.update(x.getWorkspacePath() for x in st.getAllDepSteps())
-        diff(name, "getAllWorkspaces", sorted(live_ws), sorted(set(ir.getAllWorkspaces())))
+                    live_st.extend(st.getAllDepSteps())
+        live_ws, todo = set(), live_st
+        while todo:
+            st = todo.pop()
+            if st.isValid() and st.getWorkspacePath() not in live_ws:
+                live_ws.add(st.getWorkspacePath())
+                if st.getSandbox() is not None:
+                    todo.append(st.getSandbox().getStep())
+        diff(name, "getAllWorkspaces", sorted(live_ws), sorted(w for w in set(ir.getAllWorkspaces()) if not w.startswith("/invalid/")))
         diff(name, "envWhiteList", sorted(live_roots[0].getPackage().getRecipe().getRecipeSet().envWhiteList()),
              sorted(ir.getRecipeSet().envWhiteList()))
+
+
+def unplace(x):
+    """The pseudo paths of placeholder steps ("/invalid/exec/path/of/<package>") carry no information."""
+    if isinstance(x, str):
+        return re.sub(r"^/invalid/(exec|workspace)/path/of/.*$", "/invalid", x)
+    if isinstance(x, list):
+        return [unplace(i) for i in x]
+    return x
 
 
 def jmod_vid(step):
@@ -876,6 +937,14 @@ def interesting(d):
 def main():
     a = common.args(PROP)
     rep = evidence.Report(PROP, a.tier, a.seed)
+    by_sig = rep.extra.setdefault("violations_by_signature", {})
+    report = rep.violation
+
+    def violation(sig, detail):      # every violation is counted, the first three of a signature are written out
+        by_sig[sig] = by_sig.get(sig, 0) + 1
+        if by_sig[sig] <= 3:
+            report(sig, detail)
+    rep.violation = violation
     rep.rule = ("traces = distinct TLC-generated cases (labelled package DAG, package names, isolate set, root list) "
                 "replayed into the real JobNameCalculator/_genJenkinsJobs/genJenkinsBuildOrder; evaluations = real "
                 "executions (duck-typed: 6 per case; real recipe projects; compared fields of job specifications); "
@@ -889,42 +958,95 @@ def main():
         "no Jenkins server; the XML around the embedded specification is not checked"]
     quick = a.tier == "quick"
     rng = random.Random(a.seed)
+    if a.replay:
+        return replay_one(a, rep)
+    stage = rep.extra.setdefault("stage_wall_s", {})
+    t_start = time.time()
+    # TLC meta directories and everything else temporary of this run live in one private scratch directory
+    import tempfile
+    tempfile.tempdir = common.scratch("vf-c20-tmp-")
 
-    # ---- (A) exhaustive design check, coverage, vacuity
-    res = tlc.run("JenkinsJobs", "JenkinsJobs.cfg", coverage=True, timeout=1500)
+    # ---- (A) exhaustive design check, coverage, vacuity; (B) generation.  All TLC runs of this check:
+    # name -> (config, simulate, coverage).  The generation configs check the invariants as well.
+    runs = [("A", "JenkinsJobs.cfg", None, True)]
+    if not quick:
+        runs.append(("A2", "JenkinsJobs_thorough.cfg", None, False))
+    runs += [("reach:" + inv, "JenkinsJobs_reach_%s.cfg" % inv, None, False) for inv in REACH]
+    # package names that equal a counting suffix name ("a-1"): the model itself shows the name collision
+    runs.append(("suffix", "JenkinsJobs_suffix.cfg", None, False))
+    gens = [("JenkinsJobs_gen.cfg", None), ("JenkinsJobs_gen_names.cfg" if quick else "JenkinsJobs_gen_names_thorough.cfg", None),
+            ("JenkinsJobs_gen_topo5.cfg" if quick else "JenkinsJobs_gen_topo5_thorough.cfg", None),
+            ("JenkinsJobs_gen_topo6.cfg", None), ("JenkinsJobs_gen_suffix.cfg", None),
+            ("JenkinsJobs_gen_sim.cfg", 6000 if quick else 40000)]     # random walks in total
+    if not quick:
+        gens.append(("JenkinsJobs_gen_suffix_thorough.cfg", None))
+    runs += [("gen:" + cfg, cfg, sim, False) for cfg, sim in gens]
+
+    # Mutation self-tests may reuse the TLC results of an earlier run (VF_C20_TLC_CACHE=<dir>): they depend on the
+    # specification, the configs and the seed only, never on the Bob tree under test. Unset = TLC always runs.
+    cache = os.environ.get("VF_C20_TLC_CACHE")
+
+    def one(run):
+        name, cfg, sim, cov = run
+        t0 = time.time()
+        cfile = cache and os.path.join(cache, "%s-%s-%s.pickle" % (cfg, sim, a.seed if sim else "x"))
+        if cfile and os.path.exists(cfile):
+            with open(cfile, "rb") as f:
+                r = pickle.load(f)
+            rep.extra.setdefault("tlc_results_reused_from_cache", []).append(cfg)
+            return name, r, time.time() - t0
+        r = one_run(cfg, sim, cov)
+        if cfile:
+            os.makedirs(cache, exist_ok=True)
+            r.out = r.out[-4000:]
+            with open(cfile + ".tmp", "wb") as f:
+                pickle.dump(r, f)
+            os.replace(cfile + ".tmp", cfile)
+        return name, r, time.time() - t0
+
+    def one_run(cfg, sim, cov):
+        if sim:
+            w = NW // 2 if NW >= 16 else NW      # TLC's num is per worker
+            r = tlc.run("JenkinsJobs", cfg, workers=w, simulate="num=%d" % max(1, sim // w), depth=40, seed=a.seed + 1, timeout=30000)
+        else:
+            r = tlc.run("JenkinsJobs", cfg, workers=(NW // 2 if NW >= 16 else NW), coverage=cov, timeout=30000)
+        return r
+
+    # big ones first; a few JVMs side by side (start-up and the sequential set-up levels overlap)
+    big = {"A2": 0, "gen:JenkinsJobs_gen_sim.cfg": 1, "gen:JenkinsJobs_gen_topo5_thorough.cfg": 2, "A": 3}
+    runs.sort(key=lambda r: big.get(r[0], 9))
+    results = {}
+    with concurrent.futures.ThreadPoolExecutor(4 if NW >= 16 else 1) as ex:
+        for name, r, wall in ex.map(one, runs):
+            results[name] = r
+            stage["tlc:" + name] = round(wall, 1)
+    res = results["A"]
     rep.add_tlc(res, "JenkinsJobs.cfg exhaustive (+coverage)")
     if res.violated:
         rep.violation("model:" + res.violated, {"cex": res.cex[-4:]})
     tlc.require_coverage(res, ACTIONS, "JenkinsJobs.cfg")
     rep.extra["action_coverage"] = {k: v[1] for k, v in res.coverage.items() if k in ACTIONS}
     if not quick:
-        res = tlc.run("JenkinsJobs", "JenkinsJobs_thorough.cfg", timeout=3000)
+        res = results["A2"]
         rep.add_tlc(res, "JenkinsJobs_thorough.cfg exhaustive")
         if res.violated:
             rep.violation("model:" + res.violated, {"cex": res.cex[-4:]})
     for inv in REACH:
-        r2 = tlc.run("JenkinsJobs", "JenkinsJobs_reach_%s.cfg" % inv, timeout=600)
-        if r2.violated != inv:
+        if results["reach:" + inv].violated != inv:
             raise tlc.TlcError("vacuity: %s not reachable" % inv)
-    # package names that equal a counting suffix name ("a-1"): the model itself shows the name collision
-    r3 = tlc.run("JenkinsJobs", "JenkinsJobs_suffix.cfg", timeout=900)
+    r3 = results["suffix"]
     rep.add_tlc(r3, "JenkinsJobs_suffix.cfg (package named like a numbered job)")
     if r3.violated:
         rep.violation("model:%s:suffix-universe" % r3.violated, {"cex": r3.cex[-2:]})
 
-    # ---- (B) cases out of TLC: exhaustive enumerations (which check the invariants again) and random walks
-    gens = [("JenkinsJobs_gen.cfg", None), ("JenkinsJobs_gen_names.cfg" if quick else "JenkinsJobs_gen_names_thorough.cfg", None),
-            ("JenkinsJobs_gen_topo5.cfg" if quick else "JenkinsJobs_gen_topo5_thorough.cfg", None),
-            ("JenkinsJobs_gen_suffix.cfg", None),
-            ("JenkinsJobs_gen_sim.cfg", 2500 if quick else 120000)]
-    if not quick:
-        gens.append(("JenkinsJobs_gen_suffix_thorough.cfg", None))
-    cases, seen, suffix_keys = [], set(), set()
+    cases, seen, suffix_idx, sfx = [], set(), set(), []
     for cfg, sim in gens:
-        if sim:
-            g = tlc.run("JenkinsJobs", cfg, simulate="num=%d" % sim, depth=40, seed=a.seed + 1, timeout=3000)
-        else:
-            g = tlc.run("JenkinsJobs", cfg, timeout=3000)
+        g = results.pop("gen:" + cfg)
+        if sim:   # vf.tlc does not read the statistics of simulation mode
+            m = re.search(r"The number of states generated: (\d+)", g.out)
+            g.generated = int(m.group(1)) if m else 0
+            m = re.search(r"(\d+) traces generated", g.out)
+            rep.extra["simulation"] = {"states_checked": g.generated, "traces": int(m.group(1)) if m else None}
         rep.add_tlc(g, cfg + (" -simulate num=%d" % sim if sim else " exhaustive, generation"))
         if g.violated:
             rep.violation("model:" + g.violated, {"cex": g.cex[-4:], "config": cfg})
@@ -934,13 +1056,16 @@ def main():
             k = c.key()
             if k not in seen:
                 seen.add(k)
+                if "suffix" in cfg:
+                    suffix_idx.add(len(cases))
+                    if not c.m_names_unique:
+                        sfx.append(len(cases))
                 cases.append(d)
                 new += 1
-                if "suffix" in cfg:
-                    suffix_keys.add(k)
         rep.extra.setdefault("cases_generated", {})[cfg] = {"printed": len(g.printed), "new": new}
         del g
-    if len(cases) < (20000 if quick else 200000):
+    stage["tlc_all"] = round(time.time() - t_start, 1)
+    if len(cases) < (20000 if quick else 150000):
         raise tlc.TlcError("too few cases generated: %d" % len(cases))
 
     common.use_repo()
@@ -955,7 +1080,7 @@ def main():
     csz = 400
     chunks = [([cases[i] for i in order[b:b + csz]], a.seed) for b in range(0, len(order), csz)]
     suffix_cases = 0
-    with mp.get_context("fork").Pool(16) as pool:
+    with mp.get_context("fork").Pool(NW) as pool:
         for r in pool.imap_unordered(duck_task, chunks):
             rep.traces += r["cases"]
             rep.evaluations += r["evals"]
@@ -966,23 +1091,23 @@ def main():
                 rep.model_drift(dr)
             for sig, det in r["viol"]:
                 rep.violation(sig, det)
+    stage["duck"] = round(time.time() - t_start - stage["tlc_all"], 1)
     rep.extra["duck_typed_cases"] = rep.traces
     rep.extra["duck_typed_executions"] = rep.evaluations
     rep.extra["cases_with_suffix_collision"] = suffix_cases
 
     # ---- (B-ii, B-iii) real recipes for a seed-chosen subset, weighted towards merges / tools / sandboxes
     nreal = 30 if quick else 300
-    main_idx = [i for i, d in enumerate(cases) if Case(d).key() not in suffix_keys]
+    main_idx = [i for i in range(len(cases)) if i not in suffix_idx]
     weights = [interesting(cases[i]) ** 2 for i in main_idx]
     chosen = set()
     while len(chosen) < nreal:
         chosen.update(rng.choices(main_idx, weights, k=nreal - len(chosen)))
     # plus cases of the suffix universe where the model predicts a duplicate name (the real project decides)
-    sfx = [i for i, d in enumerate(cases) if Case(d).key() in suffix_keys and not Case(d).m_names_unique]
     rng.shuffle(sfx)
     tasks = [(i, cases[i], a.seed, a.keep) for i in sorted(chosen)] + [(i, cases[i], a.seed, a.keep) for i in sfx[:3 if quick else 12]]
     realized, skipped = 0, []
-    with mp.get_context("fork").Pool(16) as pool:
+    with mp.get_context("fork").Pool(NW) as pool:
         for r in pool.imap_unordered(real_task, tasks):
             if r["status"] != "ok":
                 skipped.append(r["status"])
@@ -1000,6 +1125,7 @@ def main():
             rep.extra["real_jobs_generated"] = rep.extra.get("real_jobs_generated", 0) + r["jobs"]
             if r["sample"] and r["sample"]["steps_compared"] > 6:
                 rep.sample(r["sample"], limit=3)
+    stage["real"] = round(time.time() - t_start - stage["tlc_all"] - stage["duck"], 1)
     rep.extra["real_projects"] = realized
     rep.extra["real_projects_skipped"] = skipped[:5]
     if realized < 0.8 * len(tasks):
@@ -1014,8 +1140,212 @@ def main():
     return rep.finish()
 
 
+def replay_one(a, rep):
+    """bin/check C20 --replay evidence/replay/C20-k.json: the recorded case once more through the real code
+    (duck-typed and as a real recipe project; M's expectation is not available, so only the P oracle speaks)."""
+    with open(a.replay) as f:
+        rec = json.load(f)
+    b = rec["detail"]["case"]
+    n = b["n"]
+    deps = {int(k): v for k, v in b["deps"].items()}
+    rk = {v: k for k, v in KINDS.items()}
+    d = {"n": n, "d": [[[c, rk[k]] for c, k in deps.get(i, [])] for i in range(1, n + 1)],
+         "nm": [b["names"][str(i)] for i in range(1, n + 1)], "iso": b["isolate"], "r": b["roots"],
+         "k": rec["detail"].get("ksel", 0), "o": [], "h": [], "j": [], "bo": "ok"}
+    common.use_repo()
+    import bob.cmds.jenkins.jenkins as jmod
+    import bob.errors as errors
+    case = Case(d)
+    saved = jmod.PartialIR
+    jmod.PartialIR = DummyIR
+    install_recorder(jmod)
+    try:
+        v, part, bo = run_duck(case, case.kinds, False, jmod, errors)
+    finally:
+        jmod.PartialIR = saved
+    rep.traces += 1
+    rep.evaluations += 1
+    print("duck-typed: jobs %s build order %s" % ({k: sorted(x) for k, x in (part or {}).items()}, bo))
+    for sig, det in v:
+        rep.violation(classify_dup(case, sig, det), dict(det, case=case.brief(), level="duck-typed"))
+    r = real_task((0, d, a.seed, a.keep))
+    print("real recipes: %s %s" % (r["status"], r["sample"]))
+    rep.evaluations += 1 + r["fields_compared"]
+    for sig, det in r["viol"]:
+        rep.violation(sig, det)
+    rep.level = "exploration"
+    return rep.finish()
+
+
+# --------------------------------------------------------------------------------------------
+# thorough: the generated jobs executed on an emulated build node, compared with a local build
+
+def extract_result(tgz, dest):
+    """content/result.txt of a Bob artifact."""
+    import tarfile
+    with tarfile.open(tgz, "r:gz") as tar:
+        for m in tar:
+            if m.name == "content/result.txt":
+                return tar.extractfile(m).read().decode()
+    return None
+
+
+def run_bob(args, cwd, extra_env=None, timeout=6000):
+    env = common.clean_env(extra_env)
+    env["PYTHONDONTWRITEBYTECODE"] = "1"
+    old = os.umask(0o022)
+    try:
+        p = subprocess.run([common.PY, os.path.join(common.REPO, "bob")] + args, cwd=cwd, env=env, stdout=subprocess.PIPE,
+                           stderr=subprocess.STDOUT, text=True, errors="replace", timeout=timeout)
+    finally:
+        os.umask(old)
+    return p.returncode, p.stdout
+
+
+def jexec_task(arg):
+    idx, d, seed, keep = arg
+    common.use_repo()
+    case = Case(d)
+    work = common.scratch("vf-c20x-")
+    res = {"idx": idx, "status": "ok", "viol": [], "jobs_run": 0, "build_ids": 0, "sample": None}
+    cwd = os.getcwd()
+    try:
+        proj = os.path.join(work, "proj")
+        write_project(case, proj, scms=False)
+        shutil.copytree(proj, os.path.join(work, "local"))
+        os.chdir(proj)
+        _jexec(case, work, proj, res)
+    finally:
+        os.chdir(cwd)
+        if not keep:
+            shutil.rmtree(work, ignore_errors=True)
+    return res
+
+
+def _jexec(case, work, proj, res):
+    import shlex
+    import xml.etree.ElementTree as ET
+    import bob.cmds.jenkins.jenkins as jmod
+    import bob.errors as errors
+    from bob.input import RecipeSet
+    from bob.state import BobState, JenkinsConfig
+    from bob.archive import JenkinsArchive
+    _reset_state()
+    cfg = JenkinsConfig("http://localhost:1/", "c20c-20c2")
+    cfg.roots = root_paths(case)
+    cfg.sandbox = "no"          # no user namespaces on the emulated node
+    BobState().addJenkins("vf", cfg)
+    recipes = RecipeSet()
+    recipes.defineHook("jenkinsNameFormatter", jmod.jenkinsNameFormatter)
+    devnull = open(os.devnull, "w")
+    olderr, oldout = sys.stderr, sys.stdout
+    sys.stderr = sys.stdout = devnull
+    try:
+        try:
+            jobs = jmod.genJenkinsJobs(recipes, "vf")
+            order = jmod.genJenkinsBuildOrder(jobs)
+        except errors.ParseError as e:
+            res["status"] = "bob rejects: %s" % str(e).splitlines()[0]
+            return
+        xmls = {name: jobs[name].dumpXML(None, cfg, "2026-01-01") for name in order}
+        produced = {name: [(node_of(case, s), s.getPackage().getName(), JenkinsArchive.buildIdName(s), JenkinsArchive.tgzName(s))
+                           for s in jobs[name].getPackageSteps()] for name in order}
+    finally:
+        sys.stderr, sys.stdout = olderr, oldout
+        devnull.close()
+        _reset_state()
+
+    def viol(sig, **det):
+        res["viol"].append((sig, dict(det, case=case.brief(), level="emulated build node")))
+
+    # ---- the build node: copy-artifact steps, the shell step with the embedded specification, artifact archiver
+    store = os.path.join(work, "artifacts")
+    jid = {}
+    for name in order:
+        root = ET.fromstring(xmls[name])
+        ws = os.path.join(work, "node", name)
+        os.makedirs(ws)
+        os.makedirs(os.path.join(store, name))
+        for b in root.find("builders"):
+            if b.tag == "hudson.plugins.copyartifact.CopyArtifact":
+                src = os.path.join(store, b.find("project").text)
+                for f in b.find("filter").text.split():
+                    if not os.path.exists(os.path.join(src, f)):
+                        viol("node:artifact-not-provided-by-upstream", job=name, upstream=b.find("project").text, file=f)
+                        return
+                    shutil.copy2(os.path.join(src, f), ws)
+            elif b.tag == "hudson.tasks.Shell":
+                cmd = b.find("command").text
+                first = cmd.partition("\n")[0]
+                args = shlex.split(first[2:])
+                if args[0] != "bob":
+                    raise common_error("unexpected interpreter " + first)
+                spec = os.path.join(work, "spec-" + name)
+                with open(spec, "w") as f:
+                    f.write(cmd)
+                rc, out = run_bob(args[1:] + [spec], ws, {"JENKINS_HOME": os.path.join(work, "jhome"), "BUILD_TAG": "jenkins-%s-1" % name,
+                                                         "NODE_NAME": "vf", "BUILD_URL": "http://localhost:1/job/%s/1/" % name, "WORKSPACE": ws})
+                res["jobs_run"] += 1
+                if rc != 0:
+                    viol("node:job-failed", job=name, rc=rc, output=out[-1500:])
+                    return
+            else:
+                raise common_error("unsupported builder " + b.tag)
+        for f in root.find("publishers/hudson.tasks.ArtifactArchiver/artifacts").text.split(","):
+            if not os.path.exists(os.path.join(ws, f)):
+                viol("node:artifact-not-produced", job=name, file=f)
+                return
+            shutil.copy2(os.path.join(ws, f), os.path.join(store, name))
+        for node, pname, bidf, tgzf in produced[name]:
+            with open(os.path.join(store, name, bidf), "rb") as f:
+                jid[node] = (f.read().hex(), extract_result(os.path.join(store, name, tgzf), work), pname)
+
+    # ---- the originating project built locally; every artifact lands in a file archive under its build-id
+    local = os.path.join(work, "local")
+    arch = os.path.join(work, "archive")
+    with open(os.path.join(local, "default.yaml"), "w") as f:
+        f.write("archive:\n    backend: file\n    path: \"%s\"\n" % arch)
+    rc, out = run_bob(["build", "--no-sandbox", "--upload", "-q"] + root_paths(case), local)
+    if rc != 0:
+        raise common_error("local build failed: " + out[-1500:])
+    have = {}
+    for dp, _, fns in os.walk(arch):
+        for fn in fns:
+            if fn.endswith("-1.tgz"):
+                rel = os.path.relpath(os.path.join(dp, fn), arch).split(os.sep)
+                have["".join(rel)[:-6]] = os.path.join(dp, fn)
+    for node, (bid, result, pname) in sorted(jid.items()):
+        res["build_ids"] += 1
+        if bid not in have:
+            viol("node:build-id-differs", package=pname, node=node, build_id_on_node=bid, local_build_ids=sorted(have)[:12])
+        elif extract_result(have[bid], work) != result:
+            viol("node:result-differs", package=pname, node=node, on_node=result, local=extract_result(have[bid], work))
+    res["sample"] = {"case": case.brief(), "jobs_executed": order, "build_ids": {str(n): v[0] for n, v in jid.items()}}
+
+
 def jexec_stage(rep, cases, main_idx, weights, rng, a):
-    pass
+    t0 = time.time()
+    small = [(i, w) for i, w in zip(main_idx, weights) if cases[i]["n"] <= 5]
+    chosen = set()
+    while len(chosen) < 16:
+        chosen.update(rng.choices([i for i, _ in small], [w for _, w in small], k=16 - len(chosen)))
+    done = 0
+    with mp.get_context("fork").Pool(min(NW, 8)) as pool:
+        for r in pool.imap_unordered(jexec_task, [(i, cases[i], a.seed, a.keep) for i in sorted(chosen)]):
+            if r["status"] != "ok":
+                continue
+            done += 1
+            rep.evaluations += r["jobs_run"]
+            rep.extra["node_jobs_executed"] = rep.extra.get("node_jobs_executed", 0) + r["jobs_run"]
+            rep.extra["node_build_ids_compared"] = rep.extra.get("node_build_ids_compared", 0) + r["build_ids"]
+            for sig, det in r["viol"]:
+                rep.violation(sig, det)
+            if r["sample"]:
+                rep.sample(r["sample"], limit=5)
+    rep.extra["node_projects"] = done
+    rep.extra["stage_wall_s"]["node"] = round(time.time() - t0, 1)
+    if done < 10:
+        raise RuntimeError("emulated build node: only %d projects ran" % done)
 
 
 if __name__ == "__main__":
